@@ -175,18 +175,32 @@ Theorem multi_namespace_roundtrip_partial : forall (lower : text -> text) (nss :
 Proof. exact multi_namespace_roundtrip_l. Qed.
 Print Assumptions multi_namespace_roundtrip_partial.
 
-(* the (escaped) titles the writer hands out are pairwise different strings, whatever the escaping
-   function: the uniqueness loop tests the escaped title against the escaped titles given so far ... *)
-Theorem block_titles_distinct : forall (esc : tok -> text) labels used ts, NoDup used ->
-  assign_titles esc labels used = Ok ts -> NoDup (used ++ ts).
+(* the (escaped) titles the writer hands out have pairwise different KEYS, whatever the escaping
+   function and the key function `norm`: the uniqueness loop tests the key of the escaped title
+   against the keys of the titles given so far. With norm = upper-casing (the writer after the
+   repair notes/C09_fix_1.patch) this is: pairwise different up to case ... *)
+Theorem block_titles_distinct : forall (esc : tok -> text) (norm : text -> text) labels used ts, NoDup used ->
+  assign_titles esc norm labels used = Ok ts -> NoDup (used ++ map norm ts).
 Proof. exact assign_titles_distinct. Qed.
 Print Assumptions block_titles_distinct.
 
-(* ... which is not enough for the reader, which compares titles after .upper(): namespaces
-   labelled "ns" and "NS" get different titles and neither LINK resolves (defect, replayed on
-   the implementation by the harness). *)
+(* ... which is what the reader needs: it compares titles after .upper(), and every title then
+   resolves to exactly its own namespace (`taxa x`: the taxon labels of the namespace titled x).
+   The text written as TITLE is taken as the title the reader sees (unquoting: token layer, C02). *)
+Theorem multi_namespace_titles_resolve : forall (esc : tok -> text) (labels : list tok) (ts : list text)
+    (taxa : text -> list text) (i : nat) (t : text) (ns0 : list text),
+  assign_titles esc ucase labels [] = Ok ts ->
+  nth_error ts i = Some t ->
+  resolve_in (tab_of (map (fun x => (x, taxa x)) ts)) (Some t) ns0 = Ok (taxa t).
+Proof. exact titles_resolve_l. Qed.
+Print Assumptions multi_namespace_titles_resolve.
+
+(* With keys = the titles themselves (norm = identity: the writer before the repair) pairwise
+   different is not enough: namespaces labelled "ns" and "NS" get different titles and neither
+   LINK resolves (the defect; replayed on the implementation by the harness as long as the
+   source compares titles exactly). *)
 Theorem multi_namespace_title_case_refuted :
-  exists labels titles, assign_titles (fun t => t) labels [] = Ok titles /\ NoDup titles
+  exists labels titles, assign_titles (fun t => t) (fun t => t) labels [] = Ok titles /\ NoDup titles
     /\ exists t, In t titles /\ resolve_in (tab_of (map (fun x => (x, @nil text)) titles)) (Some t) [] = Err ParseErr.
 Proof. exact title_case_refuted_l. Qed.
 Print Assumptions multi_namespace_title_case_refuted.
